@@ -109,16 +109,16 @@ def values : Headers → Str → List Str
   | (n, vs) :: h, k => if n = k then vs ++ values h k else values h k
 
 /-- `h.Get(name)` for a canonical `name`: first value or "" -/
-def get (h : Headers) (k : Str) : Str := (values h k).head?.getD []
+def hget (h : Headers) (k : Str) : Str := (values h k).head?.getD []
 
 /-- `h.Del(name)` -/
-def del (h : Headers) (k : Str) : Headers := h.filter (fun e => !(e.1 == k))
+def hdel (h : Headers) (k : Str) : Headers := h.filter (fun e => !(e.1 == k))
 
 /-- `h.Set(name, v)` (the name is canonicalised by `Set`) -/
-def set (h : Headers) (k v : Str) : Headers := del h (canonicalKey k) ++ [(canonicalKey k, [v])]
+def hset (h : Headers) (k v : Str) : Headers := hdel h (canonicalKey k) ++ [(canonicalKey k, [v])]
 
 /-- `h.Add(name, v)` (the name is canonicalised by `Add`) -/
-def add (h : Headers) (k v : Str) : Headers := h ++ [(canonicalKey k, [v])]
+def hadd (h : Headers) (k v : Str) : Headers := h ++ [(canonicalKey k, [v])]
 
 /-- the net/http server reading the header lines of a request: every name must be a token and every value free of
     control bytes, else the server answers 400 itself; names are canonicalised, values trimmed. -/
@@ -139,7 +139,7 @@ deriving DecidableEq, Repr
 /-! ## authentication filter -/
 
 /-- `req.Header.Del("Authorization")` after a successful authentication -/
-def authnStrip (h : Headers) : Headers := del h hAuthorization
+def authnStrip (h : Headers) : Headers := hdel h hAuthorization
 
 /-! ## impersonation filter -/
 
@@ -222,7 +222,7 @@ def extraRequests : Headers → List ImpReq
 
 /-- `buildImpersonationRequests`: `none` is the error "requested … without impersonating a user" -/
 def buildImpersonationRequests (h : Headers) : Option (List ImpReq) :=
-  let requestedUser := get h hImpUser
+  let requestedUser := hget h hImpUser
   let hasUser := !requestedUser.isEmpty
   let userReqs : List ImpReq :=
     if hasUser then
@@ -280,7 +280,7 @@ def finalGroups (username : Str) (groups : List Str) : List Str :=
 /-- "clear all the impersonation headers from the request": `Del` of the user and group headers and of
     (the canonical form of) every name with the extra prefix -/
 def clearImpersonation (h : Headers) : Headers :=
-  let h1 := del (del h hImpUser) hImpGroup
+  let h1 := hdel (hdel h hImpUser) hImpGroup
   let names := (h1.filter (fun e => hasPrefix e.1 hImpExtraPrefix)).map (fun e => canonicalKey e.1)
   h1.filter (fun e => !names.contains e.1)
 
@@ -309,7 +309,7 @@ def impersonate (h : Headers) (requestor : Identity) (az : ImpReq → Decision) 
 
 /-- client-go `bearerAuthRoundTripper.RoundTrip`: an `Authorization` header that is already there wins -/
 def bearerAuth (token : Str) (h : Headers) : Headers :=
-  if !(get h hAuthorization).isEmpty then h else set h hAuthorization (bearerPrefix ++ token)
+  if !(hget h hAuthorization).isEmpty then h else hset h hAuthorization (bearerPrefix ++ token)
 
 /-- `legalHeaderByte`: `int(b) < len(legalHeaderKeyBytes) && legalHeaderKeyBytes[b]` (table regenerated from the source) -/
 def legalHeaderByte (b : UInt8) : Bool :=
@@ -332,11 +332,11 @@ def headerKeyEscape : Str → Str
 /-- the `Add` calls for the groups -/
 def addGroups (h : Headers) : List Str → Headers
   | [] => h
-  | g :: gs => addGroups (add h hImpGroup g) gs
+  | g :: gs => addGroups (hadd h hImpGroup g) gs
 
 def addValues (h : Headers) (name : Str) : List Str → Headers
   | [] => h
-  | v :: vs => addValues (add h name v) name vs
+  | v :: vs => addValues (hadd h name v) name vs
 
 /-- the `Add` calls for the extras -/
 def addExtras (h : Headers) : List (Str × List Str) → Headers
@@ -348,10 +348,10 @@ def delImpersonate (h : Headers) : Headers := h.filter (fun e => !hasPrefix (can
 
 /-- `dynamicImpersonatingRoundTripper.WrapRequest` with a context user -/
 def wrapRequest (h : Headers) (u : Identity) : Headers :=
-  if !(get h hImpUser).isEmpty then h
+  if !(hget h hImpUser).isEmpty then h
   else
     let h1 := delImpersonate h
-    let h2 := set h1 hImpUser u.name
+    let h2 := hset h1 hImpUser u.name
     let h3 := addGroups h2 u.groups
     addExtras h3 u.extra
 
@@ -425,7 +425,7 @@ def decodeExtras : Headers → List (Str × List Str)
 
 /-- the identity a kube-apiserver is told to act as by the headers it received -/
 def decodeIdentity (h : Headers) : Identity :=
-  ⟨get h hImpUser, values h hImpGroup, decodeExtras h⟩
+  ⟨hget h hImpUser, values h hImpGroup, decodeExtras h⟩
 
 /-- is this (received, canonical) name identity bearing: `Authorization` or the `Impersonate-` family -/
 def isIdentityName (n : Str) : Bool := n == hAuthorization || hasPrefix n hImpPrefix
